@@ -2,6 +2,7 @@ package gensim
 
 import (
 	"fmt"
+	"sort"
 	"strconv"
 
 	"verif/spec"
@@ -99,6 +100,7 @@ func keysOf(m map[string]string) []string {
 	for k := range m {
 		r = append(r, k)
 	}
+	sort.Strings(r)
 	return r
 }
 
